@@ -89,6 +89,7 @@ def q_log_inverse_twin(ctx):
     log[12345] ^= 1
     s = header() + table_fun("EXP", exp) + "\n" + table_fun("LOG", log)
     s += "\n(declare-const x (_ BitVec 16))\n"
+    s += "(assert (bvult x #x4000))\n"
     s += "(assert (and (not (= x #x0000)) (or (not (= (EXP (LOG x)) x)) (not (bvult (LOG x) #xffff)))))\n(check-sat)\n"
     return dict(name="T1_log_inverse_false_twin", desc="deliberately false twin: LOG[12345] perturbed, the solver must return that index", smt=s, vars=["x"], tables=["exp", "log"], expect="sat", expect_model={"x": "12345"})
 
@@ -143,7 +144,7 @@ def table_queries(ctx):
     qs = [("exp", None), ("log", None), ("twin", None), ("walsh", None)] + [("skew", d) for d in range(16)]
     cols = [(t, i) for t in range(4) for i in range(1, 16)]
     if ctx.tier == "quick":
-        cols = rnd.sample(cols, 6)
+        cols = rnd.sample(cols, 4)
     qs += [("mul", c) for c in cols]
     return qs
 
